@@ -634,7 +634,9 @@ func c26Ops(m *c26Model, thorough bool, singlesOnly bool) []string {
 	var out []string
 	emit := func(o c26Op) { out = append(out, o.String()) }
 	for ai := 1; ai <= 2; ai++ {
-		full := ai == 1 || thorough
+		// account 2 keeps the reduced alphabet in both tiers (the per-account logic is symmetric;
+		// a symmetric alphabet squares the state space)
+		full := ai == 1
 		names := []string{"A"}
 		srcs := []string{"v1", "v2", "en"}
 		if full {
@@ -769,7 +771,7 @@ func init() {
 			"non-trivial = distinct (call, deployment state) pairs that succeeded or were reported failed by tryUpdate",
 		Assumptions: []string{
 			"rt.Run journals code updates and discards them with a failed transaction, as the real host does",
-			"account 2 has a reduced alphabet in the quick tier (name A, sources v1/v2/with-enum, one-call transactions); two-call transactions use name A only in the quick tier",
+			"account 2 has a reduced alphabet (name A, sources v1/v2/with-enum, one-call transactions); two-call transactions use name A only in the quick tier, both names and all 19 second calls in the thorough tier",
 			"whether an update that changes a field type or removes a nested declaration is accepted is left to C27 (don't-care here)",
 		},
 		Run:    runC26,
